@@ -1,5 +1,6 @@
 import engine_check
 import shipped
+import Contrib
 
 
 def run(ctx):
@@ -9,7 +10,11 @@ def run(ctx):
     shipped.run_oracle(ctx, "C03")
     if ctx.tier == "thorough":
         shipped.run_oracle(ctx, "C03", sanitize=True)
+    # rep_one_min_max, predicates, http chunk rules: Coq models (Contrib.v, Properties_Contrib.v) + model/implementation correspondence + oracle
+    Contrib.stage(ctx)
 
 
 def replay(j):
+    if (j.get("replay") or {}).get("stage") == "contrib":
+        return Contrib.replay(j)
     return engine_check.replay(j)
